@@ -29,6 +29,40 @@ def dump_mir(tag):
     return s, out, ""
 
 
+TV_PROPS = {"C05", "C07", "C10", "C11"}   # properties whose queries rest on summaries of DnsRecord / Probe methods
+
+
+def translator_validation(scratch, mir, seed, log_dir):
+    """DESIGN 2.6b: SMT summaries vs the natively compiled functions on concrete vectors."""
+    t0 = time.time()
+    fail = lambda why: {"engine": "B:mirslice/z3+cvc5", "query": "b_translator_validation", "status": "inconclusive", "detail": why,
+                        "queries": 0, "nontrivial": 0, "solver_s": 0.0, "functions": [], "assumptions": [], "wall_s": round(time.time() - t0, 1)}
+    tvd = os.path.join(scratch, "tv")
+    os.makedirs(tvd, exist_ok=True)
+    tool = os.path.join(VERIF, "mirslice", "tv.py")
+    r = subprocess.run(["python3-vt", tool, "gen", str(seed), tvd], capture_output=True, text=True)
+    if r.returncode != 0:
+        return fail("vector generation failed: " + r.stderr[-200:])
+    for mod in ("dns_parser", "service_info"):
+        with open(os.path.join(scratch, "src", mod + ".rs"), "a") as f:
+            f.write(open(os.path.join(tvd, f"tv_{mod}.rs")).read())
+    env = dict(os.environ, CARGO_NET_OFFLINE="true", CARGO_TARGET_DIR=os.path.join(CACHE, "native-target"))
+    env.pop("RUSTUP_TOOLCHAIN", None)
+    nat = os.path.join(tvd, "native.txt")
+    with open(nat, "w") as f:
+        c = subprocess.run(["cargo", "test", "--offline", "--lib", "verif_tv", "--", "--nocapture", "--test-threads", "1"],
+                           cwd=scratch, env=env, stdout=f, stderr=subprocess.STDOUT, timeout=1200)
+    if c.returncode != 0:
+        return fail("native run failed (struct literal no longer matches the record types?): " + open(nat, errors="replace").read()[-300:])
+    out = os.path.join(tvd, "out.json")
+    r = subprocess.run(["python3-vt", tool, "cmp", mir, os.path.join(tvd, "vectors.json"), nat, out], capture_output=True, text=True, timeout=1200)
+    if r.returncode != 0 or not os.path.exists(out):
+        return fail("comparison crashed: " + (r.stderr or r.stdout)[-300:])
+    res = json.load(open(out))
+    res["wall_s"] = round(time.time() - t0, 1)
+    return res
+
+
 def run_property(prop, tier, seed, log_dir, only=None):
     if prop not in PROPS_WITH_SPECS:
         return []
@@ -51,6 +85,8 @@ def run_property(prop, tier, seed, log_dir, only=None):
                      "detail": "mirslice crashed: " + (r.stderr or r.stdout)[-400:],
                      "queries": 0, "nontrivial": 0, "solver_s": 0.0, "functions": [], "assumptions": []}]
         data = json.load(open(out))
+        if prop in TV_PROPS and not only:
+            data["results"].append(translator_validation(s, mir, seed, log_dir))
     finally:
         overlay.remove_scratch(s)
     res = data["results"]
